@@ -1,4 +1,5 @@
 import Tv.Thm.C02
+import Tv.Thm.C02Gen
 #print axioms Tv.C02.idx_spec
 #print axioms Tv.C02.writes_eq_range
 #print axioms Tv.C02.start_spec
@@ -12,3 +13,12 @@ import Tv.Thm.C02
 #print axioms Tv.C02.stateful_output
 #print axioms Tv.run_refines
 #print axioms Tv.run_last_rm_irrelevant
+#print axioms Tv.C02Gen.rolling_apply_to_eq
+#print axioms Tv.C02Gen.rolling_apply_to_panics
+#print axioms Tv.C02Gen.rolling2_apply_to_eq
+#print axioms Tv.C02Gen.rolling_apply_idx_to_eq
+#print axioms Tv.C02Gen.rolling2_apply_idx_to_eq
+#print axioms Tv.C02Gen.rolling_custom_to_eq
+#print axioms Tv.C02Gen.rolling_apply_to_calls
+#print axioms Tv.C02Gen.rolling_apply_to_safe
+#print axioms Tv.C02Gen.functions_present
